@@ -367,6 +367,7 @@ func runC08(c *Ctx) {
 		}
 		// replyKind classifies the payload handed to prepareClose; echo = the received frame's payload (directly, or the
 		// helper parameter bound to it)
+		frameParams := map[ssa.Value]bool{}
 		replyKind := func(v ssa.Value, echo map[ssa.Value]bool) string {
 			v = strip(v)
 			if echo[v] {
@@ -384,8 +385,8 @@ func runC08(c *Ctx) {
 						return fmt.Sprint(k)
 					}
 				}
-				if isCallToFn(call, w.payloadM) && strip(call.Call.Args[0]) == ssa.Value(fn.Params[1]) {
-					return "echo"
+				if isCallToFn(call, w.payloadM) && (strip(call.Call.Args[0]) == ssa.Value(fn.Params[1]) || frameParams[strip(call.Call.Args[0])]) {
+					return "echo" // Payload() of the received frame, or of the helper parameter bound to that frame
 				}
 			}
 			return "?"
@@ -448,6 +449,10 @@ func runC08(c *Ctx) {
 					for i, a := range hc.Call.Args {
 						if pc, ok := strip(a).(*ssa.Call); ok && isCallToFn(pc, w.payloadM) && i < len(h.Params) {
 							echo[h.Params[i]] = true
+						}
+						// the frame itself is handed to the helper: f.Payload() inside it is the received payload
+						if strip(a) == ssa.Value(fn.Params[1]) && i < len(h.Params) {
+							frameParams[h.Params[i]] = true
 						}
 					}
 					hpaths, hover := enumPaths(h)
